@@ -188,6 +188,9 @@ def sync():
         changed += _copy_tree(os.path.join(REPO, rel), os.path.join(WS, "h_" + crate), rename=hpkg(crate),
                               hooks=set(files), crate=crate, repo_rel=rel, hooked=hooked)
         members.append("h_" + crate)
+    for d in sorted(os.listdir(WS)):
+        if d.startswith("x_") and os.path.exists(os.path.join(WS, d, "Cargo.toml")):
+            members.insert(0, d)
     root = "[workspace]\nresolver = \"3\"\nmembers = [%s]\n\n[patch.crates-io]\n" % ", ".join('"%s"' % m for m in members)
     for member in CRATES:
         if member not in NO_PLAIN:
@@ -204,6 +207,19 @@ def sync():
     if os.path.isdir(vh):
         shutil.rmtree(vh)
     return {"hooked_sha256": hooked, "files_rewritten": changed}
+
+
+def write_standalone(crate_dir, pkg, cargo_toml, lib_rs):
+    """a harness crate that is not a copy of a /repo crate (code extracted from a /repo source file at run time)"""
+    d = os.path.join(WS, crate_dir)
+    write_if_changed(os.path.join(d, "Cargo.toml"), cargo_toml)
+    write_if_changed(os.path.join(d, "src", "lib.rs"), lib_rs)
+    root = os.path.join(WS, "Cargo.toml")
+    with open(root) as f:
+        t = f.read()
+    if '"%s"' % crate_dir not in t:
+        t = t.replace("members = [", 'members = ["%s", ' % crate_dir, 1)
+        write_if_changed(root, t)
 
 
 def set_hooks(crate, gens):
